@@ -31,6 +31,10 @@ def judge(ctx, fam, cases, ex, nontrivial, stats):
                 problems.append(("eval/accepted-unnumbered-design", "design with tagmode %s accepted" % v["tagmode"]))
             else:
                 problems.append(("eval/refused-valid-design", "eval errors: %s" % json.dumps(c["evalErrors"])[:300]))
+        if c["accepted"] and c["gen"] != "ok" and c["table"] is None:
+            # the generator itself failed before the protocol buffer compiler was reached: C01's business
+            stats["generator_failed"][gc.attr_tag(a)] = "%s: %s" % (c["gen"], (c["genDetail"] or "").split("\n")[0][:200])
+            continue
         if c["accepted"]:
             problems += gc.table_problems(c)
             if c["uncompilable"]:
@@ -59,7 +63,7 @@ def run(ctx):
     ctx.cov["rule"] = ("cases = (method shape, payload value, result value) triples enumerated by TLC from GRPCTransport.tla; non-trivial = well-formedness "
                        "family, or the attribute under test is not a plain required unvalidated message field; distinct = canonical JSON of (family, shape, values)")
     nontrivial = set()
-    stats = {"unusable": 0, "ran": 0, "uncompilable": {}}
+    stats = {"unusable": 0, "ran": 0, "uncompilable": {}, "generator_failed": {}}
     frac = float(os.environ.get("VERIF_FRAC") or (0.12 if quick else 1.0))
     fams = (os.environ.get("VERIF_FAMS") or "wf,req,res").split(",")
     for fam in fams:
@@ -75,6 +79,7 @@ def run(ctx):
     ctx.cov["distinct_nontrivial"] = len(nontrivial)
     ctx.cov["cases_run_in_process"] = stats["ran"]
     ctx.cov["c01_class_uncompilable_shapes"] = stats["uncompilable"]
+    ctx.cov["c01_class_generator_failures"] = stats["generator_failed"]
 
 
 def replay(ctx, rp):
